@@ -474,6 +474,7 @@ func propC15(c *Ctx) {
 	c.ruleRulesBeforeLoad()
 	c.ruleMemoCoverage("C15-MEMO-KEY-COVERS")
 	c.ruleFirstByteTables("C15-KEYWORD-PREFILTER")
+	c.ruleNextDirectiveRecognised("C15-NEXT-DIRECTIVE")
 	c.ruleRecursionVisitedOnly()
 }
 
